@@ -1,8 +1,8 @@
-//! C16 (live HTTP/3 part): the real `Core::listen` with its real metrics listener; QUIC sessions,
-//! CONNECT tunnels to a loopback origin, traffic, the ways tunnels and sessions end - after every
-//! phase `GET /metrics` must show client_sessions{http3}, outbound_tcp_sockets and the http3 traffic
-//! counters equal to what is alive / was relayed, every other series untouched, and all gauges
-//! back at zero at the end.
+//! C16 (live HTTP/3 part): the real `Core::listen` with its real metrics listener; histories of
+//! QUIC sessions, CONNECT tunnels to a loopback origin (or a refusing port), traffic, and the ways
+//! tunnels and sessions end, in the operation language of the C16 model. After every operation the
+//! series of `GET /metrics` (relative to the start of the run) are recorded once they are stable;
+//! the Lean model predicts them. All gauges must be back at zero when every client is gone.
 use crate::c02h3::{free_port, plain_hosts, LiveEndpoint};
 use crate::c16::http_get;
 use crate::common::*;
@@ -55,11 +55,113 @@ fn scrape(maddr: SocketAddr) -> Option<Obs> {
     })
 }
 
+#[derive(Clone, Debug)]
+enum Op {
+    SessOpen,
+    SessClose(usize),
+    /// CONNECT on session s: 'T' the origin, 'D' a port that refuses
+    TunOpen(usize, char),
+    Up(usize, usize),
+    Down(usize, usize),
+    /// 'g' the client ends its stream, 'r' the client resets it, 's' the origin ends its side
+    TunClose(usize, char),
+}
+
+fn op_tok(o: &Op) -> String {
+    match o {
+        Op::SessOpen => "so.3".to_string(),
+        Op::SessClose(s) => format!("sc.{}", s),
+        Op::TunOpen(s, k) => format!("to.{}.{}", s, k),
+        Op::Up(t, n) => format!("up.{}.{}", t, n),
+        Op::Down(t, n) => format!("dn.{}.{}", t, n),
+        Op::TunClose(t, k) => format!("tc.{}.{}", t, k),
+    }
+}
+
 struct Tun {
     sess: usize,
     id: u64,
-    origin: TcpStream,
-    open: bool,
+    origin: Option<TcpStream>,
+    /// what the generator knows: the client may still send / the origin may still send / the tunnel is over
+    client_open: bool,
+    origin_open: bool,
+    over: bool,
+}
+
+/// a history the suite can execute: data only where the sender can still send
+fn gen_hist(rng: &mut Rng, n: usize) -> Vec<Op> {
+    let mut ops = vec![Op::SessOpen];
+    let mut sess_alive = vec![true];
+    let mut tuns: Vec<(usize, bool, bool, bool)> = vec![]; // sess, client_open, origin_open, over
+    for _ in 0..n {
+        let live_sess: Vec<usize> = (0..sess_alive.len()).filter(|i| sess_alive[*i]).collect();
+        let usable: Vec<usize> = (0..tuns.len()).filter(|t| !tuns[*t].3 && sess_alive[tuns[*t].0]).collect();
+        let r = rng.below(100);
+        if live_sess.is_empty() || r < 8 {
+            if sess_alive.len() < 4 {
+                ops.push(Op::SessOpen);
+                sess_alive.push(true);
+            }
+        } else if r < 18 {
+            let s = *rng.pick(&live_sess);
+            ops.push(Op::SessClose(s));
+            sess_alive[s] = false;
+            for t in tuns.iter_mut().filter(|t| t.0 == s) {
+                t.3 = true;
+            }
+        } else if r < 40 || usable.is_empty() {
+            if tuns.len() < 8 {
+                let s = *rng.pick(&live_sess);
+                if rng.chance(1, 6) {
+                    ops.push(Op::TunOpen(s, 'D'));
+                    tuns.push((s, false, false, true));
+                } else {
+                    ops.push(Op::TunOpen(s, 'T'));
+                    tuns.push((s, true, true, false));
+                }
+            }
+        } else if r < 60 {
+            let t = *rng.pick(&usable);
+            if tuns[t].1 {
+                ops.push(Op::Up(t, *rng.pick(&[1usize, 3, 1000, 40_000])));
+            }
+        } else if r < 80 {
+            let t = *rng.pick(&usable);
+            if tuns[t].2 {
+                ops.push(Op::Down(t, *rng.pick(&[1usize, 5, 700, 90_000])));
+            }
+        } else {
+            let t = *rng.pick(&usable);
+            match rng.below(3) {
+                0 if tuns[t].1 => {
+                    ops.push(Op::TunClose(t, 'g'));
+                    tuns[t].1 = false;
+                    if !tuns[t].2 {
+                        tuns[t].3 = true;
+                    }
+                }
+                1 => {
+                    ops.push(Op::TunClose(t, 'r'));
+                    tuns[t].3 = true;
+                }
+                2 if tuns[t].2 => {
+                    ops.push(Op::TunClose(t, 's'));
+                    tuns[t].2 = false;
+                    if !tuns[t].1 {
+                        tuns[t].3 = true;
+                    }
+                }
+                _ => {}
+            }
+        }
+    }
+    // everybody leaves
+    for (s, alive) in sess_alive.iter().enumerate() {
+        if *alive {
+            ops.push(Op::SessClose(s));
+        }
+    }
+    ops
 }
 
 pub fn run(ctx: &mut Ctx) {
@@ -86,229 +188,251 @@ pub fn run(ctx: &mut Ctx) {
     let origin_l = TcpListener::bind("127.0.0.1:0").unwrap();
     origin_l.set_nonblocking(true).unwrap();
     let target = origin_l.local_addr().unwrap().to_string();
-    // the traffic counters are process-wide and only grow: everything is measured against the first scrape
+    let dead = TcpListener::bind("127.0.0.1:0").unwrap().local_addr().unwrap().to_string();
     let t0 = Instant::now();
-    let base = loop {
-        if let Some(o) = scrape(maddr) {
-            break o;
-        }
+    while scrape(maddr).is_none() {
         if t0.elapsed() > Duration::from_secs(5) {
             ctx.oracle_failure("metrics_listener", "GET /metrics on the metrics listener was not answered 200 within 5 s");
             return;
         }
         std::thread::sleep(Duration::from_millis(20));
-    };
+    }
     match http_get(maddr, "/health-check") {
         Some((200, _)) => {}
         other => ctx.oracle_failure("health_check", &format!("GET /health-check on the metrics listener was answered {:?}", other.map(|x| x.0))),
     }
-    let rounds = if ctx.thorough() { 12 } else { 3 };
-    // which series the client -> peer bytes feed is not fixed by the property: settled by the first transfer of the run
-    let mut up_is_outbound: Option<bool> = None;
-    let (mut up_total, mut dn_total) = (0i64, 0i64);
-    for round in 0..rounds {
+    // which series the client -> peer bytes feed is not fixed by the property: calibrated once (3 bytes up, 5 down)
+    let mut up_is_outbound = true;
+    let mut hists: Vec<Vec<Op>> = vec![
+        vec![Op::SessOpen, Op::TunOpen(0, 'T'), Op::Up(0, 3), Op::Down(0, 5), Op::TunClose(0, 'g'), Op::TunClose(0, 's'), Op::SessClose(0)],
+        vec![Op::SessOpen, Op::SessOpen, Op::TunOpen(0, 'T'), Op::TunOpen(0, 'T'), Op::TunOpen(1, 'T'), Op::Up(0, 40), Op::Down(2, 7), Op::TunClose(0, 'g'), Op::Down(0, 5), Op::TunClose(0, 's'), Op::SessClose(1), Op::SessClose(0)],
+        vec![Op::SessOpen, Op::TunOpen(0, 'D'), Op::TunOpen(0, 'T'), Op::TunClose(1, 's'), Op::Up(1, 9), Op::TunClose(1, 'r'), Op::SessClose(0)],
+        vec![Op::SessOpen, Op::TunOpen(0, 'T'), Op::TunClose(0, 'g'), Op::TunClose(0, 'r'), Op::TunOpen(0, 'T'), Op::TunClose(1, 'r'), Op::SessClose(0)],
+    ];
+    let n_random = if ctx.thorough() { 40 } else { 8 };
+    for _ in 0..n_random {
+        let n = ctx.rng.range(4, 14) as usize;
+        hists.push(gen_hist(&mut ctx.rng, n));
+    }
+    for (hi, ops) in hists.iter().enumerate() {
+        let base = match scrape(maddr) {
+            Some(o) => o,
+            None => {
+                ctx.oracle_failure("metrics_listener", "GET /metrics failed between histories");
+                return;
+            }
+        };
+        if base.s != [0, 0, 0] || base.tcp != 0 || base.udp != 0 {
+            // wait for the previous history's clients to be released
+            let t0 = Instant::now();
+            let mut ok = false;
+            while t0.elapsed() < Duration::from_secs(3) {
+                if let Some(o) = scrape(maddr) {
+                    if o.s == [0, 0, 0] && o.tcp == 0 && o.udp == 0 {
+                        ok = true;
+                        break;
+                    }
+                }
+                std::thread::sleep(Duration::from_millis(20));
+            }
+            if !ok {
+                ctx.oracle_failure("gauges_not_zero", &format!("3 s after every client of the previous history had gone the gauges read {:?}", scrape(maddr).map(|o| (o.s, o.tcp, o.udp))));
+            }
+        }
+        let base = scrape(maddr).unwrap_or(base);
         let mut sess: Vec<Option<H3Client>> = vec![];
         let mut tuns: Vec<Tun> = vec![];
-        let mut history: Vec<String> = vec![];
-        // what must be visible once things are quiet
-        let mut check = |ctx: &mut Ctx, sess: &mut Vec<Option<H3Client>>, history: &Vec<String>, live_s: i64, live_tcp: i64, up_total: i64, dn_total: i64, up_is_outbound: &mut Option<bool>| {
-            let t0 = Instant::now();
-            let mut last = None;
-            loop {
-                for c in sess.iter_mut().flatten() {
-                    c.pump();
+        let mut outs: Vec<String> = vec![];
+        let mut failed: Option<String> = None;
+        for op in ops {
+            match op {
+                Op::SessOpen => match H3Client::connect(ep.addr, Some("localhost"), &[b"h3"], 1 << 20, Duration::from_secs(3)) {
+                    Ok(mut c) => {
+                        let id = c.request("CONNECT", None, "_check", None, &[], false);
+                        c.wait(Duration::from_secs(2), |c| id.and_then(|i| c.streams.get(&i)).map(|s| s.status.is_some()).unwrap_or(false));
+                        sess.push(Some(c));
+                    }
+                    Err(e) => failed = Some(format!("QUIC handshake failed: {:?}", e)),
+                },
+                Op::SessClose(s) => {
+                    if let Some(mut c) = sess[*s].take() {
+                        c.close();
+                        c.wait(Duration::from_millis(30), |_| false);
+                    }
                 }
-                if let Some(o) = scrape(maddr) {
-                    let d_in = o.inb[2] - base.inb[2];
-                    let d_out = o.outb[2] - base.outb[2];
-                    if up_is_outbound.is_none() && up_total != dn_total && (d_in, d_out) == (up_total, dn_total) {
-                        *up_is_outbound = Some(false);
-                    }
-                    if up_is_outbound.is_none() && up_total != dn_total && (d_out, d_in) == (up_total, dn_total) {
-                        *up_is_outbound = Some(true);
-                    }
-                    let traffic_ok = match *up_is_outbound {
-                        Some(true) => (d_out, d_in) == (up_total, dn_total),
-                        Some(false) => (d_in, d_out) == (up_total, dn_total),
-                        None => up_total == dn_total && d_in == up_total && d_out == up_total,
+                Op::TunOpen(s, k) => {
+                    let Some(c) = sess[*s].as_mut() else {
+                        failed = Some("harness: tunnel on a closed session".to_string());
+                        break;
                     };
-                    let others_ok = o.s[0] == base.s[0] && o.s[1] == base.s[1] && o.inb[..2] == base.inb[..2] && o.outb[..2] == base.outb[..2] && o.udp == base.udp;
-                    if o.s[2] - base.s[2] == live_s && o.tcp - base.tcp == live_tcp && traffic_ok && others_ok {
-                        return;
-                    }
-                    last = Some(o);
-                }
-                if t0.elapsed() > Duration::from_secs(3) {
-                    break;
-                }
-                std::thread::sleep(Duration::from_millis(10));
-            }
-            ctx.oracle_failure(
-                "metrics_differ",
-                &format!(
-                    "HTTP/3 history [{}]: {} live sessions, {} live outbound TCP connections, {} payload bytes client->origin and {} origin->client relayed so far; GET /metrics (relative to the start of the run) still shows after 3 s: client_sessions http1/http2/http3 = {:?}, outbound_tcp_sockets = {:?}, outbound_udp_sockets = {:?}, inbound_traffic_bytes = {:?}, outbound_traffic_bytes = {:?}",
-                    history.join("; "),
-                    live_s,
-                    live_tcp,
-                    up_total,
-                    dn_total,
-                    last.as_ref().map(|o| [o.s[0] - base.s[0], o.s[1] - base.s[1], o.s[2] - base.s[2]]),
-                    last.as_ref().map(|o| o.tcp - base.tcp),
-                    last.as_ref().map(|o| o.udp - base.udp),
-                    last.as_ref().map(|o| [o.inb[0] - base.inb[0], o.inb[1] - base.inb[1], o.inb[2] - base.inb[2]]),
-                    last.as_ref().map(|o| [o.outb[0] - base.outb[0], o.outb[1] - base.outb[1], o.outb[2] - base.outb[2]]),
-                ),
-            );
-        };
-        // ---- sessions ----
-        let n_sess = 1 + ctx.rng.below(3) as usize;
-        for k in 0..n_sess {
-            match H3Client::connect(ep.addr, Some("localhost"), &[b"h3"], 1 << 20, Duration::from_secs(3)) {
-                Ok(mut c) => {
-                    let id = c.request("CONNECT", None, "_check", None, &[], false);
-                    c.wait(Duration::from_secs(2), |c| id.and_then(|i| c.streams.get(&i)).map(|s| s.status.is_some()).unwrap_or(false));
-                    sess.push(Some(c));
-                    history.push(format!("session {} opened (health check answered)", k));
-                }
-                Err(e) => {
-                    ctx.oracle_failure("quic_handshake_failed", &format!("{:?}", e));
-                    return;
-                }
-            }
-        }
-        ctx.stat_add("h3_sessions", n_sess as u64);
-        check(ctx, &mut sess, &history, n_sess as i64, 0, up_total, dn_total, &mut up_is_outbound);
-        // ---- tunnels ----
-        let n_tun = 1 + ctx.rng.below(4) as usize;
-        for k in 0..n_tun {
-            let si = ctx.rng.below(n_sess as u64) as usize;
-            let c = sess[si].as_mut().unwrap();
-            let Some(id) = c.request("CONNECT", None, &target, None, &[], false) else {
-                ctx.oracle_failure("harness", "request stream refused");
-                return;
-            };
-            let t0 = Instant::now();
-            let origin = loop {
-                c.pump();
-                if let Ok((s, _)) = origin_l.accept() {
-                    break Some(s);
-                }
-                if t0.elapsed() > Duration::from_secs(3) {
-                    break None;
-                }
-                std::thread::sleep(Duration::from_millis(1));
-            };
-            let Some(origin) = origin else {
-                ctx.oracle_failure("live_tunnel", "the origin saw no connection for a CONNECT over HTTP/3");
-                return;
-            };
-            let _ = origin.set_nonblocking(true);
-            let _ = origin.set_nodelay(true);
-            c.wait(Duration::from_secs(2), |c| c.streams.get(&id).map(|s| s.status.is_some()).unwrap_or(false));
-            tuns.push(Tun { sess: si, id, origin, open: true });
-            history.push(format!("tunnel {} opened on session {}", k, si));
-        }
-        ctx.stat_add("h3_tunnels", n_tun as u64);
-        check(ctx, &mut sess, &history, n_sess as i64, n_tun as i64, up_total, dn_total, &mut up_is_outbound);
-        // ---- traffic ----
-        for (k, t) in tuns.iter_mut().enumerate() {
-            let up = *ctx.rng.pick(&[0usize, 3, 1000, 40_000]);
-            let dn = *ctx.rng.pick(&[0usize, 5, 700, 90_000]);
-            let c = sess[t.sess].as_mut().unwrap();
-            let data = vec![0x55u8; up];
-            let mut off = 0;
-            let mut got_up = 0usize;
-            let mut sent_dn = 0usize;
-            let down = vec![0x33u8; dn];
-            let before = c.stream(t.id).body.len();
-            let t0 = Instant::now();
-            let mut buf = vec![0u8; 65536];
-            while (got_up < up || c.stream(t.id).body.len() < before + dn) && t0.elapsed() < Duration::from_secs(5) {
-                if off < up {
-                    off += c.send_body(t.id, &data[off..], false).unwrap_or(0);
-                }
-                if sent_dn < dn {
-                    if let Ok(n) = t.origin.write(&down[sent_dn..]) {
-                        sent_dn += n;
-                    }
-                }
-                if let Ok(n) = t.origin.read(&mut buf) {
-                    got_up += n;
-                }
-                c.pump();
-            }
-            if got_up != up || c.stream(t.id).body.len() != before + dn {
-                ctx.oracle_failure("live_tunnel", &format!("tunnel {}: {} of {} bytes reached the origin, {} of {} the client", k, got_up, up, c.stream(t.id).body.len() - before, dn));
-                return;
-            }
-            up_total += up as i64;
-            dn_total += dn as i64;
-            history.push(format!("tunnel {}: {} bytes client->origin, {} bytes origin->client", k, up, dn));
-        }
-        check(ctx, &mut sess, &history, n_sess as i64, n_tun as i64, up_total, dn_total, &mut up_is_outbound);
-        // ---- tunnels end ----
-        let mut live_tcp = n_tun as i64;
-        for (k, t) in tuns.iter_mut().enumerate() {
-            let how = ctx.rng.below(4);
-            let c = sess[t.sess].as_mut().unwrap();
-            match how {
-                0 => {
-                    // the client ends its side, the origin then closes: both directions have ended
-                    let _ = c.finish(t.id);
-                    let t0 = Instant::now();
-                    let mut b = [0u8; 64];
-                    while t0.elapsed() < Duration::from_secs(2) {
-                        c.pump();
-                        if let Ok(0) = t.origin.read(&mut b) {
+                    let dest = if *k == 'T' { &target } else { &dead };
+                    let Some(id) = c.request("CONNECT", None, dest, None, &[], false) else {
+                        failed = Some("request stream refused".to_string());
+                        break;
+                    };
+                    let mut origin = None;
+                    if *k == 'T' {
+                        let t0 = Instant::now();
+                        while t0.elapsed() < Duration::from_secs(3) {
+                            c.pump();
+                            if let Ok((s, _)) = origin_l.accept() {
+                                let _ = s.set_nonblocking(true);
+                                let _ = s.set_nodelay(true);
+                                origin = Some(s);
+                                break;
+                            }
+                            std::thread::sleep(Duration::from_millis(1));
+                        }
+                        if origin.is_none() {
+                            failed = Some("the origin saw no connection for a CONNECT over HTTP/3".to_string());
                             break;
                         }
                     }
-                    let _ = t.origin.shutdown(std::net::Shutdown::Both);
-                    history.push(format!("tunnel {}: the client ended its stream, then the origin closed", k));
+                    c.wait(Duration::from_secs(2), |c| c.streams.get(&id).map(|s| s.status.is_some()).unwrap_or(false));
+                    let want = if *k == 'T' { 200 } else { 502 };
+                    if c.stream(id).status != Some(want) {
+                        failed = Some(format!("CONNECT ({}) answered {:?}", k, c.stream(id).status));
+                        break;
+                    }
+                    tuns.push(Tun { sess: *s, id, origin, client_open: *k == 'T', origin_open: *k == 'T', over: *k != 'T' });
                 }
-                1 => {
-                    let _ = t.origin.shutdown(std::net::Shutdown::Both);
-                    c.wait(Duration::from_secs(2), |c| c.streams.get(&t.id).map(|s| s.finished || s.reset.is_some()).unwrap_or(true));
-                    let _ = c.finish(t.id);
-                    history.push(format!("tunnel {}: the origin closed", k));
+                Op::Up(t, n) => {
+                    let tn = &mut tuns[*t];
+                    let (Some(c), Some(o)) = (sess[tn.sess].as_mut(), tn.origin.as_mut()) else { continue };
+                    let data = vec![0x55u8; *n];
+                    let (mut off, mut got) = (0usize, 0usize);
+                    let mut buf = vec![0u8; 65536];
+                    let t0 = Instant::now();
+                    while got < *n && t0.elapsed() < Duration::from_secs(5) {
+                        if off < *n {
+                            off += c.send_body(tn.id, &data[off..], false).unwrap_or(0);
+                        }
+                        if let Ok(k) = o.read(&mut buf) {
+                            got += k;
+                        }
+                        c.pump();
+                    }
+                    if got != *n {
+                        failed = Some(format!("{} of {} bytes reached the origin", got, n));
+                        break;
+                    }
                 }
-                2 => {
-                    c.reset_stream(t.id, 0x10c);
-                    history.push(format!("tunnel {}: the client reset its stream", k));
+                Op::Down(t, n) => {
+                    let tn = &mut tuns[*t];
+                    let (Some(c), Some(o)) = (sess[tn.sess].as_mut(), tn.origin.as_mut()) else { continue };
+                    let data = vec![0x33u8; *n];
+                    let before = c.stream(tn.id).body.len();
+                    let mut off = 0usize;
+                    let t0 = Instant::now();
+                    while c.stream(tn.id).body.len() < before + *n && t0.elapsed() < Duration::from_secs(5) {
+                        if off < *n {
+                            if let Ok(k) = o.write(&data[off..]) {
+                                off += k;
+                            }
+                        }
+                        c.pump();
+                    }
+                    if c.stream(tn.id).body.len() != before + *n {
+                        failed = Some(format!("{} of {} bytes reached the client", c.stream(tn.id).body.len() - before, n));
+                        break;
+                    }
                 }
-                _ => {
-                    history.push(format!("tunnel {} stays open", k));
-                    continue;
+                Op::TunClose(t, how) => {
+                    let tn = &mut tuns[*t];
+                    match how {
+                        'g' => {
+                            if let Some(c) = sess[tn.sess].as_mut() {
+                                let t0 = Instant::now();
+                                while !c.finish(tn.id).unwrap_or(true) && t0.elapsed() < Duration::from_secs(2) {}
+                                // the origin sees the end of the client's stream
+                                if let Some(o) = tn.origin.as_mut() {
+                                    let mut b = [0u8; 64];
+                                    let t0 = Instant::now();
+                                    while t0.elapsed() < Duration::from_secs(2) {
+                                        c.pump();
+                                        if let Ok(0) = o.read(&mut b) {
+                                            break;
+                                        }
+                                    }
+                                }
+                            }
+                            tn.client_open = false;
+                        }
+                        'r' => {
+                            if let Some(c) = sess[tn.sess].as_mut() {
+                                c.reset_stream(tn.id, 0x10c);
+                            }
+                            tn.client_open = false;
+                            tn.over = true;
+                        }
+                        _ => {
+                            if let Some(o) = tn.origin.as_mut() {
+                                let _ = o.shutdown(std::net::Shutdown::Write);
+                            }
+                            if let Some(c) = sess[tn.sess].as_mut() {
+                                let id = tn.id;
+                                c.wait(Duration::from_secs(2), |c| c.streams.get(&id).map(|s| s.finished || s.reset.is_some()).unwrap_or(true));
+                            }
+                            tn.origin_open = false;
+                        }
+                    }
+                    if !tn.client_open && !tn.origin_open {
+                        tn.over = true;
+                    }
                 }
             }
-            t.open = false;
-            live_tcp -= 1;
-            check(ctx, &mut sess, &history, n_sess as i64, live_tcp, up_total, dn_total, &mut up_is_outbound);
+            // the series once they are stable (two equal scrapes 40 ms apart, at most 2 s)
+            let t0 = Instant::now();
+            let mut prev: Option<Obs> = None;
+            let settled = loop {
+                for c in sess.iter_mut().flatten() {
+                    c.pump();
+                }
+                let cur = scrape(maddr);
+                if cur.is_some() && cur == prev && t0.elapsed() > Duration::from_millis(120) {
+                    break cur;
+                }
+                if t0.elapsed() > Duration::from_secs(2) {
+                    break cur;
+                }
+                prev = cur;
+                let t1 = Instant::now();
+                while t1.elapsed() < Duration::from_millis(40) {
+                    for c in sess.iter_mut().flatten() {
+                        c.pump();
+                    }
+                    std::thread::sleep(Duration::from_millis(2));
+                }
+            };
+            let Some(o) = settled else {
+                failed = Some("GET /metrics failed".to_string());
+                break;
+            };
+            let d = |a: [i64; 3], b: [i64; 3]| [a[0] - b[0], a[1] - b[1], a[2] - b[2]];
+            let (s, i, u) = (d(o.s, base.s), d(o.inb, base.inb), d(o.outb, base.outb));
+            if hi == 0 && outs.len() == 3 {
+                // calibration point: 3 bytes up, 5 bytes down so far
+                if (u[2], i[2]) == (3, 5) {
+                    up_is_outbound = true;
+                } else if (i[2], u[2]) == (3, 5) {
+                    up_is_outbound = false;
+                } else {
+                    ctx.oracle_failure("calibration", &format!("3 bytes up and 5 bytes down on one HTTP/3 tunnel gave inbound {:?} outbound {:?}", i, u));
+                }
+            }
+            let (up, dn) = if up_is_outbound { (u, i) } else { (i, u) };
+            outs.push(format!("s{}/{}/{} t{} u{} up{}/{}/{} dn{}/{}/{}", s[0], s[1], s[2], o.tcp - base.tcp, o.udp - base.udp, up[0], up[1], up[2], dn[0], dn[1], dn[2]));
         }
-        // ---- sessions end (with whatever tunnels they still carry) ----
-        let mut live_s = n_sess as i64;
-        for si in 0..n_sess {
-            if let Some(mut c) = sess[si].take() {
-                c.close();
-                c.wait(Duration::from_millis(50), |_| false);
-            }
-            live_s -= 1;
-            for t in tuns.iter_mut().filter(|t| t.sess == si && t.open) {
-                t.open = false;
-                live_tcp -= 1;
-            }
-            history.push(format!("session {} closed by the client", si));
-            check(ctx, &mut sess, &history, live_s, live_tcp, up_total, dn_total, &mut up_is_outbound);
+        for c in sess.iter_mut().flatten() {
+            c.close();
+        }
+        let q = format!("c16 run E=30000 I=604800000 U=120000 K=L L=0 ops={}", ops.iter().map(op_tok).collect::<Vec<_>>().join(";"));
+        match failed {
+            Some(e) => ctx.oracle_failure("live_h3_history", &format!("{} :: {} (after {} operations)", q, e, outs.len())),
+            None => ctx.emit(&q, &outs.join(" | ")),
         }
         ctx.stat("h3_metric_histories");
-        let _ = round;
+        ctx.stat_add("h3_operations", ops.len() as u64);
     }
-    ctx.notes.push(format!(
-        "client->peer bytes of HTTP/3 tunnels feed {}",
-        match up_is_outbound {
-            Some(true) => "outbound_traffic_bytes",
-            Some(false) => "inbound_traffic_bytes",
-            None => "(not determined: equal totals)",
-        }
-    ));
+    ctx.notes.push(format!("client->peer bytes of HTTP/3 tunnels feed {}", if up_is_outbound { "outbound_traffic_bytes" } else { "inbound_traffic_bytes" }));
 }
